@@ -5065,8 +5065,7 @@ func (t *Terminal) Loop() error {
 			}
 			numLines := len(t.previewer.lines)
 			headerLines := t.activePreviewOpts.headerLines
-			if t.activePreviewOpts.cycle {
-				offsetRange := numLines - headerLines
+			if offsetRange := numLines - headerLines; t.activePreviewOpts.cycle && offsetRange > 0 {
 				newOffset = ((newOffset-headerLines)+offsetRange)%offsetRange + headerLines
 			}
 			newOffset = util.Constrain(newOffset, headerLines, numLines-1)
